@@ -2,6 +2,7 @@
 Line-protocol driver for the C11 models.
 
   reset <window> <spf>                                   new shard (window = timeWindow, spf = slots per family)
+  schema <fld>:<ftype> ...                               registers the metric's fields in field-id order
   series <id> <k>:<v> ...                                declares a series and its tags (numeric ids)
   w <tick> <fam> <ser> <fld> <ftype> <slot> <value>      one field value of one row
   flush <fam>                                            dataFamily.Flush
@@ -178,6 +179,15 @@ def step (st : St) (ws : List String) : St × String :=
     match w.toNat?, spf.toNat? with
     | some w, some spf => if w = 0 ∨ spf = 0 then (st, "bad-op") else (⟨Shard.init w, spf, [], []⟩, "ok")
     | _, _ => (st, "bad-op")
+  | "schema" :: fields =>
+    match fields.mapM parsePair with
+    | some fs =>
+      match fs.mapM (fun (p : Nat × Nat) => (FieldType.ofCode? p.2).map (fun ft => (p.1, ft))) with
+      | some fts =>
+        if !st.shard.fieldTypes.isEmpty ∨ (fts.map Prod.fst).eraseDups.length ≠ fts.length then (st, "bad-op")
+        else ({ st with shard := { st.shard with fieldTypes := fts } }, "ok")
+      | none => (st, "bad-op")
+    | none => (st, "bad-op")
   | "series" :: id :: tags =>
     match id.toNat?, tags.mapM parsePair with
     | some i, some ts =>
